@@ -1,5 +1,7 @@
 import MirVerif.Lemmas.BinIOMain
 import MirVerif.Lemmas.BinIOLabels
+import MirVerif.Lemmas.BinIOBytes
+import MirVerif.Lemmas.BinIOCounters
 import MirVerif.Gen.C11_Tables
 /-!
 # C11 — binary MIR written by MIR_write reads back as the same module, deterministically
@@ -254,6 +256,23 @@ theorem write_deterministic (cfg : Cfg) (ms1 ms2 : List Module) (h1 : WF cfg ms1
   rw [e, b] at a
   injection a with a
   exact a.symm
+
+/-- everything the writer emits is a byte: the raw stream can be handed to `reduce_encode` (C12) -/
+theorem write_emits_bytes (cfg : Cfg) (ms : List Module) (h : WF cfg ms) :
+    ∀ b : Nat, b ∈ writeModules cfg ms → b < 256 := writeModules_bytes cfg ms h
+
+/-! ## temp-name counters restored by the reader -/
+
+/-- after a module has been read, `last_temp_item_num` is at least `N` for every name `.lc<N>` that
+went through `read_name`, and `last_temp_num` of a function at least `N` for every register
+operand `t<N>`: names generated later cannot collide with names that were read -/
+theorem temp_counters_cover (m : Module) (f : Func) (n : Name) (k : Nat) :
+    (n ∈ m.items.flatMap itemReadNames → reservedNum lcPrefix n = some k → k ≤ moduleCounter m)
+    ∧ (n ∈ f.insns.flatMap insnRegNames → reservedNum tPrefix n = some k → k ≤ funcCounter f) :=
+  ⟨fun h hk => foldl_bump_covers lcPrefix _ 0 n k h hk, fun h hk => foldl_bump_covers tPrefix _ 0 n k h hk⟩
+
+example : reservedNum lcPrefix [46, 108, 99, 49, 50] = some 12 ∧ reservedNum tPrefix [116, 55] = some 7
+    ∧ reservedNum tPrefix [116, 109, 112] = none ∧ reservedNum lcPrefix [46, 108, 99] = some 0 := by decide
 
 /-! ## labels -/
 
